@@ -167,7 +167,54 @@ def expected_pattern_lookup(chk, F, rule, cfg):
     fn = F.fn('state::SharedState::find_ordered_expected_call_pattern_debug')
     own = lambda x: x[0] == 'ref' and x[1][1][-1:] == (('f', 'fn_mockers'),) and x[1][0] == ('ptr', ('param', 0, 1))  # noqa: E731
     n = 0
-    for p in symex.Interp(F).run(fn):
+    paths = symex.Interp(F, loop_bound=3).run(fn)
+    if paths and any(p.called(r'Iterator>?::next$') for p in paths) and not any(p.called(r'Iterator>?::(find_map|find|filter_map)$') for p in paths):
+        # explicit loop over the method tables
+        for p in paths:
+            n += 1
+            cur = None
+            ok, why = True, ''
+            returned = None
+            for e in [e for e in p.effects if e.kind == 'call']:
+                nm = e.data[1]
+                if re.search(r'Iterator>?::next$', nm):
+                    pn = L.pipeline_calls(e.data[2][0], own)
+                    if pn is None or not all(re.search(r'(BTreeMap(<.*>)?::(values|iter)$|Iterator>?::next$|IntoIterator>?::into_iter$)', x) for x in pn):
+                        ok, why = False, 'the loop does not walk the method tables themselves: %s' % (pn,)
+                        break
+                    cur = ('call', nm, e.data[2], e.data[3])
+                elif re.search(r'FnMocker::find_call_pattern_for_call_order$', nm):
+                    if cur is None or not mentions(e.data[2][0], lambda x: x == cur) or strip(e.data[2][1]) != ('param', 0, 2):
+                        ok, why = False, 'slot lookup not on the current table / not with the given index'
+                        break
+                    returned = ('lookup', ('call', nm, e.data[2], e.data[3]))
+                elif re.search(r'FnMocker::debug_pattern$', nm):
+                    lk = returned[1] if returned and returned[0] == 'lookup' else None
+                    if lk is None or not mentions(e.data[2][1], lambda x: x == lk) or not mentions(e.data[2][0], lambda x: x == cur):
+                        ok, why = False, 'the pattern described is not the one the slot lookup found in this table'
+                        break
+                    returned = ('debug', ('call', nm, e.data[2], e.data[3]))
+                elif re.search(r'binary_search|partition_point|Iterator>?::(position|nth|skip|rev)$', nm):
+                    ok, why = False, 'another search: %s' % nm
+                    break
+            r = strip(p.outcome[1]) if p.outcome[0] == 'return' else ('unk', '')
+            if ok:
+                found_owner = any(strip(d.value)[0] == 'discr' and is_call(strip(strip(d.value)[1]), r'FnMocker::find_call_pattern_for_call_order$') and symex.decision_variant(F, d) == 'Some' for d in p.decisions)
+                if found_owner:
+                    ok = r[0] == 'agg' and r[3] == 'Some' and returned is not None and returned[0] == 'debug' and mentions(r, lambda x: x == returned[1])
+                    why = 'a found slot owner must be reported at once'
+                else:
+                    last = None
+                    for d in p.decisions:
+                        if L.is_iter_next(strip(d.value)):
+                            last = symex.decision_variant(F, d)
+                    ok = r[0] == 'agg' and r[3] == 'None' and last == 'None'
+                    why = 'None only after every table has been consulted (last next: %s)' % last
+            chk.ob(rule, 'the pattern named in a wrong-order error is the slot owner found by the selector\'s own lookup, in that method\'s list (loop form)', ok, config=cfg, fn=fn,
+                   site='expected:loop', what='expected-pattern loop: %s' % why if not ok else 'expected-pattern loop', found=why if not ok else None)
+        chk.floor(rule, 'paths of the expected-pattern search', n, 3, config=cfg)
+        return
+    for p in paths:
         v = p.outcome[1] if p.outcome[0] == 'return' else ('unk', '')
         names = L.pipeline_calls(v, own)
         ok = names is not None and all(re.search(r'(BTreeMap(<.*>)?::(values|iter)$|Iterator>?::(find_map|filter|filter_map|map|next|find)$|IntoIterator>?::into_iter$)', x) for x in names)
